@@ -85,6 +85,7 @@ func judgeC18(c *Ctx, sc *Scenario) *Violation {
 			c.Stats.Extra["meter_schedules"]++
 			c.Stats.Extra["meter_frames"] += float64(r.Frames)
 			c.Stats.Extra["stale_ticker_wakeups"] += float64(r.Stale)
+			c.Stats.Extra["worker_parked_inside_Start_or_Done"] += float64(r.MidOp)
 			if len(r.Events) > 0 {
 				c.Stats.SimNS += r.Events[len(r.Events)-1].TNS
 			}
@@ -300,5 +301,5 @@ func init() {
 	}
 	comp["meter.progressMeter (part 1)"] = "real code with hook H1 (build tag verif): the ticker goroutine parks after receiving a tick; worker, parked tickers and the fake clock are scheduled one at a time by the plan (baton scheduler)"
 	Register(&Prop{ID: "C18", Check: checkC18, Replay: judgeC18, Components: comp,
-		Rule: "(1) meter simulation: phase scripts Start;(Inc|Add n|sleep d)*;Done x 1-4 phases, periods 1/10/100 ms, with a seeded baton schedule choosing among {worker step, release a ticker parked between tick and lock, advance the fake clock}; every frame checked online (count equals the items counted at that instant, never decreases, one final line per phase with the exact total, nothing for a phase after its final line). (2) whole system: CLI runs with --progress on generated worlds with peers slowed on the fake clock; stdout identical to --no-progress, stderr consists of well-formed frames only, final count of each phase equals the census (blobs, trees, commits, commits, tags, references+ROOTs). non-trivial: (1) at least one frame printed and one stale ticker woken after its phase ended, distinct by interleaving signature; (2) >= 2 intermediate frames, distinct by scenario hash"})
+		Rule: "(1) meter simulation: phase scripts Start;(Inc|Add n|sleep d)*;Done x 1-4 phases, periods 1/10/100 ms, with a seeded baton schedule choosing among {worker step, release a ticker parked between tick and lock, advance the fake clock}, the worker itself being parked once inside every Start() and Done() at the meter's Lock (yield point compiled in; parked tickers may go first); every frame checked online (count equals the items counted at that instant, never decreases, one final line per phase with the exact total, nothing for a phase after its final line). (2) whole system: CLI runs with --progress on generated worlds with peers slowed on the fake clock; stdout identical to --no-progress, stderr consists of well-formed frames only, final count of each phase equals the census (blobs, trees, commits, commits, tags, references+ROOTs). non-trivial: (1) at least one frame printed and one stale ticker woken after its phase ended, distinct by interleaving signature; (2) >= 2 intermediate frames, distinct by scenario hash"})
 }
